@@ -748,6 +748,36 @@ def _segments(chk, repo, mod, W):
                 and v[1] == 1 + i * (sv - 1) / d
         except (Inconclusive, AttributeError, IndexError):
             ok = False
+    # which sustain for which kind of s (decision table)
+    try:
+        ab_ = docstring_free(at.body)
+        from ..dtable import walk as _dwalk
+        for it_ in (True, False):
+            F_ = Facts(kinds={"s": {"Stream", "Iterable"} if it_ else {"float"}}, types={"Iterable"})
+
+            def rba(name, value, F2, it_=it_):
+                F2.forget(name)
+                if name == "it_s":
+                    if unparse(value) == "None":
+                        F2.none.add("it_s")
+                    else:
+                        F2.kinds["it_s"] = {"iterator"}
+                if name == "s":
+                    F2.kinds["s"] = {"float"}
+            w_ = _dwalk(ab_, F_, "attack", rebind=rba, strict=False)
+            t_ = w_.texts()
+            took = "it_s = iter(s)" in t_ and "s = next(it_s)" in t_ and t_.index("it_s = iter(s)") < t_.index("s = next(it_s)")
+            sustain = [x for x in t_ if x.startswith("while True:") or x.startswith("for s in it_s:") or x.startswith("for ") and "it_s" in x]
+            if it_:
+                okk = took and len(sustain) == 1 and "it_s" in sustain[0]
+            else:
+                okk = not took and "it_s = None" in t_ and len(sustain) == 1 and sustain[0].startswith("while True:") and "yield s" in sustain[0]
+            chk.decide(okk and w_.end == "fall", "C19.segments", W("attack"),
+                       "sustain given as %s -> %s" % ("an iterable" if it_ else "a number", (sustain[0].replace("\n", " ") if sustain else "?")[:70]),
+                       why="a sustain stream gives its first value to the decay and the rest to the sustain part; a number "
+                           "is held for ever", node=at)
+    except AnalysisError as ex:
+        chk.defer(str(ex))
     tail = docstring_free(at.body)[-1]
     ok2 = isinstance(tail, ast.If) and unparse(tail.test) == "it_s is None" \
         and unparse(tail.body[0]) == "while True:\n    yield s" and isinstance(tail.orelse[0], ast.For) \
